@@ -60,6 +60,15 @@ def catalogue(features=()):
     C.append(struct([F('plain', rty='enum', en=enum([('unit',), ('tuple', 2)])), F('plain', rty='struct', inner=LEAF()), F('plain')]))
     C.append(struct([F('plain'), F('plain')], generic=True))
     C.append(struct([F('plain'), F('plain', skip=1), F('ordered', cont='Vec')], generic=True))
+    # a SKIPPED twin of the same type directly before each kind (a position among the unskipped fields that is
+    # confused with the declared position then hits a field of the right type: the failure is silent, not a compile error)
+    l1, l2, l3 = LEAF(), LEAF(), LEAF2()
+    C.append(struct([F('plain'), F('ropt', skip=1, inner=l1), F('ropt', inner=l1), F('plain')]))
+    C.append(struct([F('recurse', skip=1, inner=l2), F('recurse', inner=l2), F('plain', skip=1), F('plain')]))
+    C.append(struct([F('plain', skip=1), F('plain'), F('ordered', skip=1, cont='Vec'), F('ordered', cont='Vec'),
+                     F('unord', skip=1, cont='Vec'), F('unord', cont='Vec')]))
+    C.append(struct([F('map', skip=1, mode='kv', cont='HashMap'), F('map', mode='kv', cont='HashMap'),
+                     F('recmap', skip=1, mode='kv', inner=l3, cont='HashMap'), F('recmap', mode='kv', inner=l3, cont='HashMap'), F('plain')]))
     # all kinds in one struct (the 14-field shape)
     C.append(struct([F('plain'), F('plain', rty='Option<u32>'), F('plain', skip=1), F('recurse', inner=LEAF2()), F('ropt', inner=LEAF()),
                      F('ordered', cont='Vec'), F('unord', cont='Vec'), F('unord', cont='HashSet'), F('map', mode='kv', cont='HashMap'),
@@ -292,8 +301,12 @@ def gen_rust(shapes, with_setters=False):
            'use std::collections::{BTreeMap, BTreeSet, HashMap, HashSet, LinkedList, VecDeque};\n',
            '#[cfg(feature = "nanoserde")]\nuse nanoserde::{DeBin, SerBin};\n\n']
     seen = set()
-    for sh in shapes:
+    global LAST_RANGES
+    LAST_RANGES = []           # (first line, last line, index of the top-level shape that introduced the text)
+    for idx, sh in enumerate(shapes):
+        before = ''.join(out).count('\n')
         gen_types(sh, out, seen)
+        LAST_RANGES.append((before + 1, ''.join(out).count('\n'), idx))
     arms = []
     for i, sh in enumerate(shapes):
         inst = f'{sh["name"]}<u32>' if sh.get('generic') else sh['name']
@@ -621,6 +634,26 @@ def canon_entry_model(sh, e):
             else: cs.append(('Change', int(c[1]), canon_entries_model(f['inner'], c[2])))
         return (idx, 'rmap', ('Modify', tuple(sorted(cs, key=lambda z: (z[1], z[0])))))
     raise ValueError(tagp)
+
+
+LAST_RANGES = []
+
+
+def blame(cargo_output):
+    """indices of the top-level shapes whose generated declarations rustc (or the macro) rejects"""
+    bad = set()
+    for m in re.finditer(r'--> src/gen_shapes\.rs:(\d+):', cargo_output):
+        ln = int(m.group(1))
+        for a, b, idx in LAST_RANGES:
+            if a <= ln <= b:
+                bad.add(idx)
+    return sorted(bad)
+
+
+def shape_text(sh):
+    out = []
+    gen_types(sh, out, set())
+    return ''.join(out)
 
 
 def write_shapes(shapes, with_setters=False):
